@@ -118,8 +118,13 @@ CHECKS.update({
                 text="Histories of Session.tla (up to three actions: analyse contract c with detector order o, re-run) over eight "
                      "sensitising contracts are replayed each in one fresh interpreter under rotating PYTHONHASHSEED values; the "
                      "digests of contexts / ordered paths / JSON recorded after every action are validated as a trace of Session "
-                     "with Result = the digest of a fresh single-action process (SessionTrace.tla).",
-                technique="trace validation of recorded process histories against a TLA+ session specification with TLC"),
+                     "with Result = the digest of a fresh single-action process (SessionTrace.tla).  Worklist orders: the "
+                     "forward/backward dataflow engine is the state machine Solver.tla; runs of the real engine recorded through "
+                     "the TEALER_VERIF hooks are validated event by event (SolverTrace.tla, corrupted copies must be rejected) and "
+                     "TLC explores every worklist order on the recorded graph and constraints, all of which must end with the "
+                     "recorded result (SolverAny.tla).",
+                technique="trace validation of recorded process histories and of hook-recorded runs of the dataflow engine against "
+                          "TLA+ specifications with TLC; exhaustive exploration of all worklist orders on the recorded instances"),
     "C15": dict(level="exploration", design_ref="DESIGN.md §5 C15",
                 text="Rewrite.tla defines the rewrites (rename, hex, oct, numeric, pushint, intcblock+intc, padding, moving "
                      "subroutines, compositions) with their line maps; TLC shows each generated pair equivalent on Avm.tla and "
@@ -164,7 +169,7 @@ def main():
             "enable": "TEALER_VERIF=1 in the environment of the harness process (no rebuild needed; pure Python)",
             "baseline_off_cmd": "cd /repo && env -u TEALER_VERIF /venv/bin/python -m pytest -ra -q -p no:cacheprovider "
                                 "--timeout=900 --continue-on-collection-errors",
-            "source_commits": [],
+            "source_commits": ["2ffe9af93930e3e20f43003a7376a1029f0d414c"],
             "add_only": True,
         },
         "engines": [
